@@ -20,11 +20,14 @@ LAT = 2          # admitted trigger -> phy_reset latency in cycles (0..LAT)
 
 def configs(tier):
     out = []
-    rng = range(1, 6) if tier == "quick" else range(1, 10)
+    rng = range(1, 5) if tier == "quick" else range(1, 10)
     for por in (True, False):
         for r in rng:
             for s in rng:
                 out.append(dict(clock_frequency=1.0, reset_length=float(r), stop_length=float(s), power_on_reset=por))
+    if tier == "quick":
+        for r, s in ((1, 6), (2, 5), (5, 5), (6, 3), (4, 6), (5, 8)):
+            out.append(dict(clock_frequency=1.0, reset_length=float(r), stop_length=float(s), power_on_reset=(r + s) % 2 == 0))
     # realistic frequencies / durations (cycle counts come out of the class' own ceil() computation)
     real = [(60e6, 2e-6, 2e-6), (60e6, 2e-6, 5e-6), (60e6, 1e-6, 2.2e-6), (12e6, 1e-6, 3e-6), (100e6, 0.33e-6, 0.5e-6)]
     if tier != "quick":
@@ -36,11 +39,11 @@ def configs(tier):
 
 
 class ResetSpec(Spec):
-    n_validate = 4
+    n_validate = 2
 
     def __init__(self, cfg, tier):
         super().__init__(cfg, tier)
-        self.time_budget = 30 if tier == "quick" else 600
+        self.time_budget = 150 if tier == "quick" else 800
         self.R = self.S = None
 
     def build(self):
